@@ -184,6 +184,9 @@ pub fn scenario<C: Coll>(c: &mut Ctx, _idx: u64, rng: &mut Rng, name: &str) {
                 let found = col.has(absent);
                 let calls = fuse::count(Class::Eq) - e0;
                 crate::check!(!found, "{}: step {}: absent key {} reported present", what, step, absent);
+                if bh.plan.is_lawful() && calls as usize > col.len() {
+                    crate::viol!("{}: step {}: a lookup of an absent key made {} equality calls although only {} elements are stored (an element was compared more than once)", what, step, calls, col.len());
+                }
                 if calls as usize > f.buckets + 16 {
                     crate::viol!("{}: step {}: a lookup of an absent key made {} equality calls in a table of {} buckets", what, step, calls, f.buckets);
                 }
